@@ -1796,6 +1796,9 @@ class Rule(metaclass=LogicalType):
                 except TypeError:
                     if not cls.__args_parser__ or not issubclass(cls.__origin__, (set, frozenset)):
                         raise
+                    if context.transformer.resolver_transformer(cls.__origin__) is not TypeTransformer.to_array_types:
+                        # (a converter registered for the type has refused the value: its word stands)
+                        raise
                     # a set cannot be made of the elements as they are given (one is not hashable), but they
                     # are converted one by one below: there such an element is an invalid item like any other
                     value = context.transformer.apply(value, list)
